@@ -252,10 +252,14 @@ def check_ww(case, ctx):
     a = 1.0 if case["a_default"] else case["a"]
     rows = case["rows"]
     with ctx.sut("C20/ww/build"):
-        ul = I.BrownianStock(cost=c, dtype=DTYPES[dtype])
+        late_cost = len(rows) % 2 == 1  # the cost rate of the instrument is (re)set after the strategy object was built
+        ul = I.BrownianStock(cost=(0.0 if c else 1e-3) if late_cost else c, dtype=DTYPES[dtype])
         cls = getattr(I, WW_KINDS[kind])
         deriv = cls(ul, call=call, strike=K) if kind in ("european", "european_binary") else cls(ul, strike=K)
         mod = WhalleyWilmott(deriv) if case["a_default"] else WhalleyWilmott(deriv, a=a)
+        if late_cost:
+            ul.cost = c
+            ctx.cls("ww:cost-set-after-construction")
         names = mod.inputs()
     expect_names = ["log_moneyness"] + (["max_log_moneyness"] if kind in ("american_binary", "lookback") else []) + \
         ["time_to_maturity", "volatility", "prev_hedge"]
